@@ -251,8 +251,11 @@ fn exec_src(src: &str) -> Option<(String, String, Option<String>, bool)> {
 
 // ---------- generators (source text)
 
-const LEAVES: &[&str] = &["1", "\"s\"", "x", "a::b", "f()", "x.m()", "|y| f(y)", "move || g(1)", "view! { p { (f()) } }", "vec![f()]", "x.y", "self.0"];
-const LEAVES_SMALL: &[&str] = &["1", "x", "f()", "|y| f(y)", "view! { (f()) }", "m!(f())"];
+// macros with call-free bodies matter: `format!` & co. evaluate their arguments (Display on a signal is a
+// tracked read; `{x}` captures live inside the string literal), whatever the tokens look like
+const LEAVES: &[&str] = &["1", "\"s\"", "x", "a::b", "f()", "x.m()", "|y| f(y)", "move || g(1)", "view! { p { (f()) } }", "vec![f()]", "x.y", "self.0",
+    "format!(\"{x}\")", "format!(\"{}\", x)", "println!(\"{}\", x)", "vec![x]", "std::format!(\"{x}\")", "matches!(x, 1)"];
+const LEAVES_SMALL: &[&str] = &["1", "x", "f()", "|y| f(y)", "view! { (f()) }", "m!(f())", "format!(\"{x}\")", "m!(x)"];
 const PATS: &[&str] = &["_", "1", "x", "ref mut x", "mut x", "ref x", "x @ {P}", "A::B", "({P})", "{P} | {P}", "({P}, {P})", "({P}, ..)", "T({P})",
     "[{P}, ..]", "S { a: {P} }", "S { a, .. }", "1..=2", "&{P}", "&mut {P}", "m!()", "view!()", "const { 1 }", "-1", "None"];
 const EXPRS: &[&str] = &[
@@ -263,7 +266,7 @@ const EXPRS: &[&str] = &[
     "if {E} { {S} }", "if {E} { {S} } else { {S} }", "if {E} { {E} } else if {E} { {E} } else { {E} }", "-{E}", "!{E}", "*{E}",
     "{E} + {E}", "{E} && {E}", "{E} += {E}", "{E} == {E}", "{E}[{E}]", "{E}..{E}", "..{E}", "{E}..", "..", "{E}..={E}",
     "{E}({E})", "{E}.m({E})", "{E}.await", "{E}?", "{E} = {E}", "&{E}", "&mut {E}", "&raw const {E}", "return {E}", "return",
-    "async { {S} }", "async move { {E} }", "unsafe { {S} }", "|x| {E}", "move |x: u8| { {S} }", "m!({E})", "view! { p { ({E}) } }", "x::<{ N }>",
+    "async { {S} }", "async move { {E} }", "unsafe { {S} }", "|x| {E}", "move |x: u8| { {S} }", "m!({E})", "format!(\"{}\", {E})", "view! { p { ({E}) } }", "x::<{ N }>",
     "{E} as [u8; 3]", "#[a] {E}",
 ];
 const STMTS: &[&str] = &[
